@@ -924,3 +924,193 @@ def conc_replay(prop, replay, scratch):
 
 PROPS["C04"] = {"runner": conc_runner, "replay": conc_replay, "level": "proof", "assumptions": ["A-lock: std Mutex / RwLock semantics; a mutex-protected critical section is atomic with respect to other holders of that mutex", "A-hdr: a header slot is read atomically (interleavings inside DBInner::meta are below the yield points)"]}
 PROPS["C09"] = {"runner": conc_runner, "replay": conc_replay, "level": "proof", "assumptions": ["A-lock: std Mutex / RwLock semantics (both reader-admission policies of the rwlock are covered by the theorems; the scheduler explores the admit-readers policy)", "fair OS scheduling for liveness"]}
+
+
+# ---- C13: processes ----------------------------------------------------------------------------------------
+def c13_runner(prop, tier, seed, scratch, spec):
+    import random
+    import proccheck
+    q = tier == "quick"
+    r = random.Random(seed)
+    open_f, _ = vlib.load_findings()
+    d12_open = any(f.get("id") == "D12" for f in open_f)
+    obs = []
+    names = []
+    for name, kind, lines in proccheck.scenarios(scratch, q, r):
+        obs += lines
+        names.append((name, kind))
+    p = scratch.path("proc.obs")
+    open(p, "w").write("\n".join(obs) + "\n")
+    rc, out, err, _ = vlib.sh([vlib.JMODEL, "proc", p], timeout=300)
+    violations, known = [], []
+    n_ok = 0
+    contended = 0
+    # coverage: in how many scenarios did a worker call open while another was still inside
+    cur = None
+    times = {}
+    for l in obs:
+        f = l.split(" ")
+        if f[0] == "scenario":
+            cur = f[1]
+            times[cur] = {}
+        elif len(f) >= 3 and f[1] in ("open-called", "open-returned", "about-to-close"):
+            times[cur].setdefault(f[0], {})[f[1]] = int(f[2])
+    for sc_, ws in times.items():
+        for a, ta in ws.items():
+            for b, tb in ws.items():
+                if a != b and "open-called" in ta and "about-to-close" in tb and "open-returned" in tb and tb["open-returned"] < ta["open-called"] < tb["about-to-close"]:
+                    contended += 1
+    seen = set()
+    for l in out.split("\n"):
+        if l.startswith("PROCOK "):
+            n_ok += 1
+        elif l.startswith("PROCBAD "):
+            hdr, cls, text = (l[len("PROCBAD "):].split(" ## ") + ["", ""])[:3]
+            f = hdr.split(" ")
+            name, kind = f[1], f[2]
+            parked = (re.search(r"parked=(\S+)", hdr) or [None, ""])[1]
+            # D12: the file did not exist; the creator was parked between create and lock (after `open`
+            # or before the initial `write`), and the late opener failed or got in early
+            is_d12 = kind == "create" and re.search(r"@(open1|write1)$", parked) is not None and cls in ("failed", "overlap")
+            if is_d12 and d12_open:
+                known.append("D12 %s: %s (creator parked between create and lock)" % (name, text[:120]))
+                continue
+            if (name, cls) in seen:
+                continue
+            seen.add((name, cls))
+            rp = os.path.join(vlib.WORK, "replays", "C13-%s.obs" % name)
+            os.makedirs(os.path.dirname(rp), exist_ok=True)
+            blk, on = [], False
+            for o in obs:
+                if o.startswith("scenario "):
+                    on = o.split(" ")[1] == name
+                if on:
+                    blk.append(o)
+            open(rp, "w").write("# %s: %s\n" % (cls, text) + "\n".join(blk) + "\n")
+            violations.append((rp, "%s: %s" % (name, text[:200]), ""))
+    for h in [l for l in obs if l.startswith("scenario ") and "hung=-" not in l]:
+        rp = os.path.join(vlib.WORK, "replays", "C13-hung-%s.obs" % h.split(" ")[1])
+        open(rp, "w").write(h + "\n")
+        violations.append((rp, "a worker never finished: " + h, ""))
+    cov = {
+        "evaluations": len(names),
+        "distinct_nontrivial": len(names),
+        "rule": "each scenario = 2-4 worker processes opening the same file (existing, or not yet created), the first one parked by the LD_PRELOAD shim inside a chosen libc call of its open / initialise / close sequence until a later opener has been started; plus unparked runs with random start offsets and hold times; each worker commits a marker; intervals and contents checked by the Lean driver",
+        "samples": obs[:12],
+        "traces_validated_against_impl": n_ok,
+        "contended_opens": contended,
+        "scenarios": [n for n, _ in names],
+    }
+    return {"violations": violations[:4], "coverage": cov, "explored": len(names), "known": known}
+
+
+def c13_replay(prop, replay, scratch):
+    rc, out, err, _ = vlib.sh([vlib.JMODEL, "proc", replay], timeout=60)
+    print(out)
+    if "PROCBAD" in out:
+        print("VIOLATION property=%s replay=%s" % (prop, replay))
+        return 1
+    return 0
+
+
+PROPS["C13"] = {"runner": c13_runner, "replay": c13_replay, "level": "other", "assumptions": ["A-lock: flock advisory-lock semantics (same host, not NFS)"]}
+
+
+# ---- C14: API programs ----------------------------------------------------------------------------------------
+def c14_runner(prop, tier, seed, scratch, spec):
+    import apicheck
+    open_f, _ = vlib.load_findings()
+    d13_open = any(f.get("id") == "D13" for f in open_f)
+    rlib, err = apicheck.build_lib()
+    violations, known = [], []
+    if rlib is None:
+        p = vlib.write_replay(prop, "lib-build", [], {"broken": "cargo build --lib failed", "log": err})
+        return {"violations": [(p, "the crate does not build", " no-failing-input-found")], "coverage": {"evaluations": 0, "distinct_nontrivial": 0}, "explored": 0, "known": []}
+    # the model's predictions
+    rc, out, e, _ = vlib.sh([os.path.join(vlib.LEAN, ".lake/build/bin/japi")], timeout=120)
+    pred, send = {}, {}
+    for l in out.split("\n"):
+        f = l.split(" ")
+        if f[0] == "API":
+            pred[(f[1], f[2], f[3] == "ref")] = {"rejected": f[4] == "rejected=true", "mapped": f[5] == "mapped=true"}
+        elif f[0] == "SEND":
+            send[f[1]] = f[2] == "notSend=true"
+    methods = json.load(open(os.path.join(vlib.WORK, "api-methods.json"))) if os.path.exists(os.path.join(vlib.WORK, "api-methods.json")) else []
+    wd = os.path.join(scratch.dir, "api")
+    os.makedirs(wd, exist_ok=True)
+    jobs = []
+    unclassified = []
+    for m in methods:
+        if m["owner"] not in apicheck.HANDED_OUT:
+            continue
+        key = (m["owner"], m["name"] + ("&" if m["forRef"] else ""))
+        if key not in apicheck.CALLS and (m["owner"], m["name"]) not in apicheck.CALLS:
+            unclassified.append("%s::%s" % (m["owner"], m["name"]))
+            continue
+        call = apicheck.CALLS.get(key, apicheck.CALLS.get((m["owner"], m["name"])))
+        if call is None:
+            continue
+        name = "esc-%s-%s%s" % (m["owner"], m["name"], "-ref" if m["forRef"] else "")
+        src = apicheck.escape_program(m["owner"], m["name"], m["forRef"], call, os.path.join(scratch.dbdir, name + ".db"))
+        p_ = pred.get((m["owner"], m["name"], m["forRef"]), {"rejected": None, "mapped": None})
+        jobs.append((name, src, "reject" if p_["rejected"] else "accept", p_["mapped"], "generated"))
+    for name, (exp, body) in apicheck.HANDWRITTEN.items():
+        src = apicheck.PRELUDE + "\nfn main() {\n    " + body.replace("$P", os.path.join(scratch.dbdir, name + ".db")) + "\n}\n"
+        jobs.append((name, src, exp, False, "handwritten"))
+    import concurrent.futures as cf
+    with cf.ThreadPoolExecutor(max_workers=12) as ex:
+        results = list(ex.map(lambda j: apicheck.compile_and_run(wd, j[0], j[1], rlib), jobs))
+    n_ok = 0
+    table = []
+    for (name, src, exp, mapped, origin), r in zip(jobs, results):
+        row = {"program": name, "predicted": exp, "rustc": r["verdict"], "codes": r.get("codes", []), "ran_ok": r.get("run_ok")}
+        table.append(row)
+        problem = None
+        LIFETIME_CODES = {"E0597", "E0505", "E0716", "E0499", "E0502", "E0506", "E0515", "E0521", "E0277", "E0373", "E0382", "E0503", "E0713"}
+        if r["verdict"] != exp:
+            problem = "rustc %ss a program the model predicts to be %sed (%s)" % (r["verdict"], exp, ",".join(r.get("codes", [])) or r.get("stderr", "")[-120:])
+        elif r["verdict"] == "reject" and not (set(r.get("codes", [])) & LIFETIME_CODES):
+            problem = "rejected, but not with a borrow / lifetime / Send error (%s): the program template no longer fits the API" % (",".join(r.get("codes", [])) or r.get("stderr", "")[-120:])
+        elif r["verdict"] == "accept" and not r.get("run_ok"):
+            problem = "the program compiles but faults / sees changed bytes at run time (rc=%s %s)" % (r.get("run_rc"), r.get("run_err", "")[-100:])
+        if problem is None:
+            n_ok += 1
+            continue
+        is_d13 = name.startswith("esc-BucketName-to_bytes")
+        if is_d13 and d13_open:
+            known.append("D13 %s: %s" % (name, problem[:140]))
+            continue
+        rp = os.path.join(vlib.WORK, "replays", "C14-%s.rs" % name)
+        os.makedirs(os.path.dirname(rp), exist_ok=True)
+        open(rp, "w").write("// %s\n" % problem + src)
+        violations.append((rp, "%s: %s" % (name, problem), ""))
+    if unclassified:
+        rp = vlib.write_replay(prop, "unclassified-api", [], {"broken": "public methods without an escape program template (tools/apicheck.py CALLS)", "methods": unclassified})
+        violations.append((rp, "new public API not covered: %s" % ", ".join(unclassified), " no-failing-input-found"))
+    cov = {
+        "programs": len(jobs),
+        "disagreements_checked": len(jobs),
+        "evaluations": len(jobs),
+        "distinct_nontrivial": len(jobs),
+        "rule": "one escape program per public method of every handed-out type (from the regenerated rustdoc table) + hand-written escape routes (commit/drop, DB, short-lived keys/values, threads) + positive controls; each type-checked by the real rustc against the current tree; verdict compared with the Lean model's; compiled programs are run while the file is remapped and its pages reused",
+        "samples": table[:4] + table[-3:],
+        "traces_validated_against_impl": n_ok,
+        "verdict_table": table,
+        "send_model": send,
+    }
+    return {"violations": violations[:5], "coverage": cov, "explored": len(jobs), "known": known}
+
+
+def c14_replay(prop, replay, scratch):
+    import apicheck
+    rlib, err = apicheck.build_lib()
+    src = open(replay).read()
+    r = apicheck.compile_and_run(scratch.dir, "replay", src, rlib)
+    print("REPLAY rustc=%s codes=%s ran_ok=%s" % (r["verdict"], r.get("codes"), r.get("run_ok")))
+    print(open(replay).readline().strip())
+    print("VIOLATION property=%s replay=%s" % (prop, replay))
+    return 1
+
+
+PROPS["C14"] = {"runner": c14_runner, "replay": c14_replay, "level": "other", "trusted": ["rustc is the ground truth for 'rejected'; nightly rustdoc JSON (format 57) for the API table"],
+                "assumptions": ["the region rule is an abstraction of the borrow checker validated only on this corpus (variance, higher-ranked bounds, drop-check not modelled)"]}
